@@ -22,7 +22,11 @@ Inductive case :=
           (obs : res unit)                           (* validateInputs: nil / error / panic *)
 | CScript (s : list N) (sum : Z) (obs : bool)        (* Script.Validate(sum) == nil *)
 | CVerify (a r s k : Z) (obs : bool)                 (* Key.Verify; k the challenge of the verified transcript *)
-| CBatch (es : list (Z * Z * Z * Z)) (obs : bool).   (* crypto.BatchVerify on entries (a, r, s, k) *)
+| CBatch (es : list (Z * Z * Z * Z)) (obs : bool)    (* crypto.BatchVerify on entries (a, r, s, k) *)
+| CCancel (es : list (Z * Z * Z * Z)) (zs : list Z) (obs : bool).
+  (* linear-cancellation family: every entry individually invalid, the errors chosen so
+     that the batch sum cancels for the coefficient pattern zs (all equal, period 2,
+     small guessed weights); crypto.BatchVerify must still refuse *)
 
 Definition mk_utxo (u : Z * list (N * N) * list N) : utxo :=
   mkUtxo (fst (fst u)) (map (fun p => mkKey (fst p) (snd p)) (snd (fst u))) (snd u).
@@ -48,4 +52,10 @@ Definition check (c : case) : bool :=
       Bool.eqb obs (negb (Nat.eqb (length es) 0) && ok)
       && implb obs (batch_verify ed_l (ones (length es) 1) es)
       && implb obs (batch_verify ed_l (ones (length es) 340282366920938463463374607431768211297) es)
+  | CCancel es zs obs =>
+      negb obs
+      && forallb (fun e => negb (entry_ok ed_l e)) es
+      && Nat.eqb (length zs) (length es)
+      && batch_check ed_l zs es                       (* the family does cancel for its pattern *)
+      && negb (batch_check ed_l (ones (length es) 1) es)  (* and not for pairwise different coefficients *)
   end.
